@@ -193,7 +193,8 @@ class FitKernels:
         closure returns a fresh unconstrained value (f64 incl. NaN / infinities, or an integer), so the run covers
         every cost function, monotone or not, deterministic or not.  Obligations: the closure is only called with
         i < j < size and with a minima slice that contains entry i (what the cost closure of wrap_optimal_fit
-        indexes); the result has `size` entries, entry 0 is (0, initial) and entry j >= 1 names a row < j."""
+        indexes), and every entry k of that slice already names a row < k (what LineNumbers::get relies on); the result has
+        `size` entries, entry 0 is (0, initial) and entry j >= 1 names a row < j."""
         size = cfg['size']
         fp = cfg.get('num') == 'fp'
         vals = []
@@ -211,7 +212,8 @@ class FitKernels:
                 vals.append(v)
                 r = SymF(v)
             l, a, b = I_.models.as_list(minima)
-            calls.append([i, j, b - a])
+            ok = all((l[a + k].f[0] == 0) if k == 0 else (l[a + k].f[0] < k) for k in range(b - a))
+            calls.append([i, j, b - a, int(ok)])
             return r
         res = I.run('online_column_minima', [SymFP(z3.FPVal(0.0, z3.Float64())) if fp else SymF(z3.IntVal(0)), size,
                                             PyFn(matrix, 'matrix')])
@@ -221,9 +223,11 @@ class FitKernels:
 
     def smawk_oracle(self, I, cfg, inp, out):
         size = inp['size']
-        for i, j, ln in out['calls']:
+        for i, j, ln, ok in out['calls']:
             I.check(v_and(v_lt(i, j), v_lt(j, size), v_lt(i, ln)), 'smawk-closure-called-in-range',
                     'matrix closure called with (i, j) = (%s, %s) and %s minima, size %s' % (i, j, ln, size))
+            I.check(ok == 1, 'smawk-row-below-column', 'the minima slice handed to the closure has an entry naming a row '
+                    'not below its column (LineNumbers::get would recurse forever / index out of range)')
         rows = out['rows']
         if I.check(len(rows) == size, 'smawk-result-length', 'result has %d entries for size %d' % (len(rows), size)):
             I.check(v_eq(rows[0], 0), 'smawk-row-below-column', 'entry 0 names row %s' % (rows[0],))
